@@ -898,3 +898,10 @@ mutant("dk-yajilin-slice-bound", "C11", PZ + "yajilin.py", "count_true(black_cel
 # blind spot: min(y + 1, width) on the row axis mixes a row value with a column value inside min(); mixed kinds are never reported (max(height, width) is legitimate)
 mutant("dk-nurimisaki-compare-only", "C11", PZ + "nurimisaki.py", "                        cand.append(fold_and(is_white[y, (x + 1) : (x + n)], ~is_white[y, x + n]))", "                        cand.append(fold_and(is_white[y, (x + 1) : (x + n)], ~is_white[x + n, y]))", "DK")
 variant("dk-value-bound-mixed", "C11", PZ + "view.py", "    nums = solver.int_array((height, width), 0, height + width)", "    nums = solver.int_array((height, width), 0, width + height)")
+
+# ---- C17 compass parser (formerly known findings) ------------------------------------------------
+CMP = "cspuz/puzzle/compass.py"
+mutant("exc-compass-no-truncation-check", "C17", CMP, "                if i >= len(body):\n                    raise ValueError(\"truncated clue\")\n", "", "EXC-1")
+mutant("exc-compass-zero-width", "C17", CMP, "    if height <= 0 or width <= 0:\n        raise ValueError(\"board size must be positive\")\n", "", "EXC-5")
+mutant("exc-compass-unvalidated-hex", "C17", CMP, "                    if i + 3 > len(body) or not _is_hex(body[i + 1 : i + 3]):", "                    if i + 3 > len(body):", "EXC-6")
+mutant("exc-compass-outside-board", "C17", CMP, "            if pos >= height * width:\n                raise ValueError(\"clue outside the board\")\n", "", "EXC-7")
